@@ -36,6 +36,20 @@ fn drive<P: ParallelIterator>(mut p: P, mut on_item: impl FnMut(usize, P::Item) 
     }
 }
 
+/// Upstream reduces partial results pairwise in a tree whose shape depends on how the work was
+/// split: here adjacent values (left operand = earlier positions) are combined in an order the
+/// simulator chooses.
+fn reduce_adjacent<T>(v: Vec<T>, op: &impl Fn(T, T) -> T) -> Option<T> {
+    let mut v: Vec<Option<T>> = v.into_iter().map(Some).collect();
+    while v.len() > 1 {
+        let i = simhook::choose(v.len() - 1, "reduce-pair");
+        let b = v.remove(i + 1).unwrap();
+        let a = v[i].take().unwrap();
+        v[i] = Some(op(a, b));
+    }
+    v.pop().flatten()
+}
+
 struct AssertSync<T>(T);
 // Only `process(&self, ..)` is called through this wrapper from several threads; the stages'
 // closures are `Sync` by the bounds on the adaptors and the base holds no items any more.
@@ -269,24 +283,39 @@ pub trait ParallelIterator: Sized + Send {
         OP: Fn(Self::Item, Self::Item) -> Self::Item + Sync + Send,
         ID: Fn() -> Self::Item + Sync + Send,
     {
-        run_ordered(self).into_iter().fold(identity(), |a, b| op(a, b))
+        reduce_adjacent(run_ordered(self), &op).unwrap_or_else(identity)
     }
     fn reduce_with<OP>(self, op: OP) -> Option<Self::Item>
     where
         OP: Fn(Self::Item, Self::Item) -> Self::Item + Sync + Send,
     {
-        run_ordered(self).into_iter().reduce(|a, b| op(a, b))
+        reduce_adjacent(run_ordered(self), &op)
     }
-    /// Upstream yields one accumulator per work split; a single split is one
-    /// legal outcome and the one modelled here.
+    /// Upstream yields one accumulator per work split: the items are cut into a
+    /// simulator-chosen number of contiguous pieces, each folded left to right.
     fn fold<T, ID, F>(self, identity: ID, fold_op: F) -> IterBase<T>
     where
         F: Fn(T, Self::Item) -> T + Sync + Send,
         ID: Fn() -> T + Sync + Send,
         T: Send,
     {
-        let acc = run_ordered(self).into_iter().fold(identity(), |a, b| fold_op(a, b));
-        IterBase { items: vec![acc] }
+        let items = run_ordered(self);
+        let n = items.len();
+        let pieces = 1 + simhook::choose(n.clamp(1, 8), "fold-pieces");
+        // piece boundaries: `pieces - 1` cut points in 1..n
+        let mut cuts: Vec<usize> = (0..pieces.saturating_sub(1)).map(|_| 1 + simhook::choose(n.max(2) - 1, "fold-cut")).collect();
+        cuts.sort();
+        cuts.dedup();
+        let mut accs = Vec::new();
+        let mut acc = identity();
+        for (i, x) in items.into_iter().enumerate() {
+            if cuts.contains(&i) {
+                accs.push(std::mem::replace(&mut acc, identity()));
+            }
+            acc = fold_op(acc, x);
+        }
+        accs.push(acc);
+        IterBase { items: accs }
     }
     fn any<F>(self, f: F) -> bool
     where
